@@ -204,8 +204,10 @@ def run(ctx):
     R.insert_fn
     import c02
     res = c02.r2_3(ctx, R)
-    ctx.obs = [o for o in ctx.obs if not o.rule.startswith("R2.3")]  # only used to locate the counter field
-    ctx.rule_texts.pop("R2.3", None)
+    # the fill guard reads the slot map's occupied counter; it means "a free slot can be claimed" only while counter and free
+    # list move together (a slot that drops out of the free list while the counter goes down makes the guard admit a pull
+    # the insert then refuses: the adapter panics / stalls below its limit)
+    ctx.rule("R2.3", "see C02 R2.3 (shared link): slot-map insert / remove keep the occupied counter and the free list in step")
     counter = res["INSERT"][0]
     head = res["INSERT"][1]
     ctx.need(counter is not None, "COUNTER: slot-map occupied counter")
